@@ -188,6 +188,7 @@ pub fn scenario(errors: bool) -> BoxedStrategy<Scenario> {
 			producers,
 			err_kind: u8::from(errors && slow_err),
 			empty_errs: errors && handler_ms % 2 == 0,
+			throttle_via_field: false,
 			err_j: 0,
 			replace_action_at: 0,
 			throttle_change: None,
